@@ -616,8 +616,9 @@ fn l_on_write(addr: *const u8, size: usize, old: u64, new: u64) {
             if cleared & !G.mine[r] != 0 {
                 G.bad = true; // O2
             }
+            let owned_cleared = (cleared & G.mine[r]).count_ones() as usize;
             G.mine[r] = (G.mine[r] | set) & !cleared;
-            G.nmine = G.nmine + set.count_ones() as usize - (cleared & (G.mine[r] | cleared)).count_ones() as usize;
+            G.nmine = (G.nmine + set.count_ones() as usize).saturating_sub(owned_cleared);
             // never own more bits than withheld -- except while filling under the huge marker
             let e = entry_atom(st).0.load(Relaxed);
             if G.nmine > G.w && e != HUGE {
@@ -686,7 +687,7 @@ fn li_get_body(k: usize, targeted: bool, freeze: bool) {
     let g = unsafe { &*core::ptr::addr_of!(G) };
     vcover!("C01", r.is_ok() && g.env_steps > 0, "allocation succeeds although other threads interfered");
     vcover!("C01", r.is_err() && g.env_steps > 0, "allocation fails under interference");
-    vassert!("C01", !g.bad, "(guarantee) the call only clears bits it owns, only takes from the counter what it marks, only marks huge frames it saw entirely free");
+    vassert!("C01,C05", !g.bad, "(guarantee) every write of the call only clears bits it owns, only takes from the counter what it marks, only marks huge frames it saw entirely free");
     match r {
         Ok(f) => {
             let f = f.0;
@@ -755,7 +756,7 @@ fn li_put_body(k: usize, shape: u8, freeze: bool) {
     let g = unsafe { &*core::ptr::addr_of!(G) };
     vcover!("C03", r.is_ok() && (g.env_steps > 0 || shape == 2), "free succeeds although other threads interfered");
     vcover!("C03", shape != 1 || g.joined, "another holder (or this call) split the huge frame");
-    vassert!("C01", !g.bad, "(guarantee) the call only clears bits it owns, only returns to the counter what it gave up, only clears markers it owns or filled");
+    vassert!("C01,C05", !g.bad, "(guarantee) every write of the call only clears bits it owns, only returns to the counter what it gave up, only clears a huge marker after it filled the bitfield");
     vassert!("C03", r.is_ok(), "a free of a held block always succeeds");
     if shape == 2 && k < HUGE_ORDER {
         // split of a huge frame I own entirely: everything but the freed block stays mine
@@ -1358,7 +1359,7 @@ fn l_put_t2_o10() {
 // (orders 7/8 at this layer exceed the memory cap; their multi-row paths are covered under
 // interference at the bitfield layer: bi_set_first_zeros_o7/o8, bi_toggle_*_o7/o8)
 
-// @h props=C01,C03,C04,C02 tier=quick geom=1 panics=C03 mem=C18 unwind=C21
+// @h props=C01,C03,C04,C02,C05 tier=quick geom=1 panics=C03 mem=C18 unwind=C21
 #[kani::proof]
 #[kani::unwind(12)]
 #[kani::stub(core::hint::spin_loop, crate::verif_support::spin_loop_model)]
@@ -1474,7 +1475,7 @@ fn li_get_at_o8() {
     li_get_body(8, true, false)
 }
 
-// @h props=C01,C03,C04 tier=quick geom=1 panics=C03 mem=C18 unwind=C21
+// @h props=C01,C03,C04,C05 tier=quick geom=1 panics=C03 mem=C18 unwind=C21
 #[kani::proof]
 #[kani::unwind(12)]
 #[kani::stub(core::hint::spin_loop, crate::verif_support::spin_loop_model)]
@@ -1532,7 +1533,7 @@ fn li_put_o8() {
     li_put_body(8, 0, false)
 }
 
-// @h props=C01,C03,C04 tier=quick geom=1 panics=C03 mem=C18 unwind=C21 role=put_part_of_shared_huge
+// @h props=C01,C03,C04,C05 tier=quick geom=1 panics=C03 mem=C18 unwind=C21 role=put_part_of_shared_huge
 #[kani::proof]
 #[kani::unwind(12)]
 #[kani::stub(core::hint::spin_loop, crate::verif_support::spin_loop_model)]
@@ -1578,7 +1579,7 @@ fn li_put_part_o6() {
     li_put_body(6, 1, false)
 }
 
-// @h props=C01,C03,C04,C02 tier=quick geom=1 panics=C03 mem=C18 unwind=C21
+// @h props=C01,C03,C04,C02,C05 tier=quick geom=1 panics=C03 mem=C18 unwind=C21
 #[kani::proof]
 #[kani::unwind(12)]
 #[kani::stub(core::hint::spin_loop, crate::verif_support::spin_loop_model)]
